@@ -284,7 +284,7 @@ func (p *probeRun) finish(id int, o outcome, label string) bool {
 	if o.O == "deadline" {
 		rq.ctl.variant = 0
 	}
-	p.hist = append(p.hist, fmt.Sprintf(`{"op":"Finish","r":%d,"k":%v,"o":%q,"z":%d}`, id, k.arr(), o.O, o.Z))
+	p.hist = append(p.hist, mStep{Op: "Finish", R: id, O: o.O, Z: o.Z}.String())
 	p.res.Count("steps", 1)
 	p.res.Count("outcome_"+o.O, 1)
 	before := p.o.clone()
@@ -473,12 +473,11 @@ func TestProbeReplay(t *testing.T) {
 		t.Fatal(err)
 	}
 	defer tr.close()
-	rng := vh.Rand()
 	for pi, path := range in.Paths {
 		if len(res.Skipped) > 0 {
 			break
 		}
-		p := &probeRun{reqRun: newReqRun(&in, res, tr, pi, rng, path.ID, "TestProbeReplay"),
+		p := &probeRun{reqRun: newReqRun(&in, res, tr, pi+in.ShapeBase, pathRand(path.ID), path.ID, "TestProbeReplay"),
 			reqs: map[int]*pReq{}, byAddr: map[string]int{}, events: make(chan pEvent, 256)}
 		start := res.NViolations()
 		ops := []string{}
